@@ -65,3 +65,16 @@ def telescoping(d, c, g):
     loop(0, inv=lambda it: forall(0, it, lambda j: c[j] == g[j] - g[0]))
     for j in range(len(d)):
         pass
+
+
+@lemma(args={"w0": "array[real]", "p0": "array[real]", "w1": "array[real]", "p1": "array[real]", "c": "real"}, nonlinear="nra")
+def shifted_sum(w0, p0, w1, p1, c):
+    """Adding a constant c to every element adds (j + 1) c to the j-th partial sum."""
+    requires(len(w0) == len(w1) and len(p0) == len(w0) and len(p1) == len(w0) and len(w0) >= 1)
+    requires(p0[0] == w0[0] and forall(1, len(w0), lambda k: p0[k] == p0[k - 1] + w0[k]))
+    requires(p1[0] == w1[0] and forall(1, len(w0), lambda k: p1[k] == p1[k - 1] + w1[k]))
+    requires(forall(0, len(w0), lambda k: w1[k] == w0[k] + c))
+    ensures(forall(0, len(w0), lambda j: p1[j] == p0[j] + (j + 1) * c))
+    loop(0, inv=lambda it: forall(0, it, lambda j: p1[j] == p0[j] + (j + 1) * c))
+    for j in range(len(w0)):
+        pass
